@@ -274,3 +274,16 @@ also("C20", "Also: every string-serialized type requests deserialize_str; no ts_
 also("C04", "Also (value map): checked / overflowing offset shifts of NaiveDateTime, from_utc_datetime / from_local_datetime of a FixedOffset and naive_local / overflowing_naive_local / timestamp / naive_utc of DateTime "
             "folded on both sides of midnight, a leap second, year ends and both range ends for offsets up to +-(24 h - 1 s) equal UTC + offset with the fraction kept; the checked forms refuse exactly outside MIN..=MAX.", VM)
 also("C20", "Also (value map): visit_i64 / visit_u64 of all eight ts_* visitors on all unit and range boundaries build exactly value * unit after the epoch or refuse.", VM)
+
+# ---- after the seventh round -----------------------------------------------------------------------------------------------------------
+also("C03", "Also: each date iterator yields the value it held before the step, in both directions.")
+also("C07", "Also (value map): NaiveDateTime::signed_duration_since across a day boundary with ordinary and leap-second operands.", VM)
+also("C09", "Also: FixedOffset::from_str hands the scanned offset to east_opt unmodified.")
+also("C10", "Also (value map): OffsetFormat::format, with its output calls logged, writes the documented text over a one-factor-at-a-time design of its formats and 35 boundary offsets.", VM)
+also("C11", "Also (value map): the offset writer as for C10.", VM)
+also("C12", "Also (value maps with the output calls logged): OffsetFormat::format over its formats and boundary offsets; write_two for 0..=99 x 3 paddings; write_year on both sides of 0 / 1000 / 9999. "
+            "Also: every fmt::Result in the writers is consumed (`?`, match, return) before it is overwritten or the function ends.", VM)
+also("C13", "Also (value maps): the offset writer and the two-digit writer as for C12.", VM)
+also("C14", "Also (value map): to_fixed_offset builds the offset that many seconds east, refuses +-24 h and an absent field.", VM)
+also("C16", "Also: in validate() the leap-second loop dominates every Ok return. (The E1 rule of this property was blind to sites first reached below a documented panicker until the context-bit repair; see DESIGN 11.2.)")
+also("C18", "Also: nothing in offset::local::inner reaches process-wide synchronised state (OnceLock, Mutex, atomics); find_tz_file decides by opening, not by metadata.")
